@@ -149,28 +149,23 @@ pub fn entries_words(es: &[Ent]) -> String {
 }
 
 pub fn state_print(s: &CoordinatorState) -> String {
-    let mut w: Vec<String> = s
-        .workers
-        .iter()
-        .map(|(k, e)| {
-            format!(
-                "{}={}/{}/{}/{}/{}/{}/{}/{}/{}",
-                k, e.id, e.address, e.api_key, e.status, e.cpu_cores, e.pipelines_running, e.max_pipelines,
-                list(&e.assigned_pipelines), e.events_processed
-            )
-        })
-        .collect();
-    w.sort();
-    let mut g: Vec<String> = s.pipeline_groups.iter().map(|(k, v)| format!("{}={}", k, canon(v))).collect();
-    g.sort();
-    let mut c: Vec<String> =
-        s.connectors.iter().map(|(k, v)| format!("{}={}", k, canon(&serde_json::to_value(v).unwrap()))).collect();
-    c.sort();
-    let mut m: Vec<String> = s.active_migrations.iter().map(|(k, v)| format!("{}={}", k, task_token(v))).collect();
-    m.sort();
-    let mut r: Vec<String> =
-        s.models.iter().map(|(k, v)| format!("{}={}", k, canon(&serde_json::to_value(v).unwrap()))).collect();
-    r.sort();
+    // sort by key, then render
+    fn by_key<V>(m: &std::collections::HashMap<String, V>, f: impl Fn(&V) -> String) -> Vec<String> {
+        let mut ks: Vec<&String> = m.keys().collect();
+        ks.sort();
+        ks.iter().map(|k| format!("{}={}", k, f(&m[*k]))).collect()
+    }
+    let w = by_key(&s.workers, |e| {
+        format!(
+            "{}/{}/{}/{}/{}/{}/{}/{}/{}",
+            e.id, e.address, e.api_key, e.status, e.cpu_cores, e.pipelines_running, e.max_pipelines,
+            list(&e.assigned_pipelines), e.events_processed
+        )
+    });
+    let g = by_key(&s.pipeline_groups, canon);
+    let c = by_key(&s.connectors, |v| canon(&serde_json::to_value(v).unwrap()));
+    let m = by_key(&s.active_migrations, task_token);
+    let r = by_key(&s.models, |v| canon(&serde_json::to_value(v).unwrap()));
     let p = s.scaling_policy.as_ref().map(canon).unwrap_or_else(|| "-".into());
     format!("W:{} G:{} C:{} M:{} P:{} R:{}", sec(&w), sec(&g), sec(&c), sec(&m), p, sec(&r))
 }
